@@ -80,10 +80,11 @@ def full_docs():
         # the same name may be required several times (by several buildpacks, with different metadata)
         "plan": {"entries": [{"name": "x", "metadata": META}, {"name": "y"}, {"name": "x", "metadata": Meta(("t", {"k": ("s", "other"), "extra": ("i", 2)}))}, {"name": "y"}]},
         "layer": {"types": {"launch": True, "build": True, "cache": True}, "metadata": META},
-        "launch": {"processes": [{"type": "web", "command": ["c", "d"], "args": ["a"], "default": True, "working-dir": "/w d"}, {"type": "w", "command": []}],
+        "launch": {"processes": [{"type": "web", "command": ["c", "d"], "args": ["a"], "default": True, "working-dir": "/w d"}, {"type": "w", "command": []},
+                                 {"type": "dot", "command": ["c"], "working-dir": "."}, {"type": "dotslash", "command": ["c"], "working-dir": "./"}],
                    "labels": [{"key": "k", "value": "v"}], "slices": [{"paths": ["*.a", "b"]}, {"paths": []}]},
         "store": {"metadata": META},
-        "package": {"buildpack": {"uri": "."}, "dependencies": [{"uri": "libcnb:x/y"}, {"uri": "docker://r/i"}], "platform": {"os": "windows"}},
+        "package": {"buildpack": {"uri": "."}, "dependencies": [{"uri": "libcnb:x/y"}, {"uri": "docker://r/i"}, {"uri": "docker://REGISTRY.Example.com/a/../b/%7Euser/./img"}, {"uri": "https://Example.COM:443/x%2Fy"}], "platform": {"os": "windows"}},
     }
 
 
@@ -416,4 +417,5 @@ def run(ctx):
     res.cov("exhaustive", True)
     res.assume("schema = Buildpack API 0.10 as restated in DESIGN C08; pinned keys (distro name/version, store.metadata, platform.os when [platform] is given, non-empty order/group) are always present and never deleted")
     res.assume("documents are emitted in inline-table form by an independent emitter")
+    res.assume("URI schemes are written in lower case (the URI type of the uriparse crate stores known schemes case-normalised; scheme case is not judged)")
     return res.done()
